@@ -258,9 +258,19 @@ func (s *sys) noteRoundEnd(before, after snap) {
 		return
 	}
 	h, r := before.voting.Height, before.voting.Round
+	// What the mirror itself holds for the round it left (its round store), not what the harness sent: a message whose
+	// caller gave up (CANCEL) may never have been applied.
 	var pow uint64
-	for i := range s.delivered[dkey{'c', h, r, ""}] {
-		pow += s.w.VS(h).Validators[i].Power
+	seen := map[int]bool{}
+	if rs, ok := after.rounds[[2]uint64{h, uint64(r)}]; ok {
+		for _, sg := range rs.precommits.BlockSignatures[""] {
+			if len(sg.KeyID) == 2 {
+				if i := int(sg.KeyID[0])<<8 | int(sg.KeyID[1]); i < nVals && !seen[i] {
+					seen[i] = true
+					pow += s.w.VS(h).Validators[i].Power
+				}
+			}
+		}
 	}
 	s.roundEnds = append(s.roundEnds, roundEnd{h: h, r: r, seg: s.restarts, nilQuorum: pow >= majority(s.w.total(h))})
 }
